@@ -147,7 +147,7 @@ def gen_headers(rnd, cls, method):
         n = rnd.choice(["Accept", "accept-LANGUAGE", "X-Custom-ONE", "x_under", "Cookie", "Authorization", "X-Multi",
                         "x-multi", "X-MULTI", "If-None-Match", "Referer", "x-e`mpty|~", "Via", "X-Real-Ip", "Origin"])
         v = rnd.choice([b"*/*", b"en;q=0.8, de", b"v", b"", b"a=1; b=2", b"Bearer abc.def", b"a, b", b"\"etag\"", b"k\xc3\xa9y",
-                        b"x  y", b"1.2.3.4", b"http://o.example/?a=b;c"])
+                        b"x  y", b"1.2.3.4", b"http://o.example/?a=b;c", b"L" * rnd.choice([255, 256, 1023, 1025, 4096, 8000])])
         add(n, v)
     r = rnd.random()
     if r < 0.40:                         # client-supplied forwarding headers
@@ -163,7 +163,8 @@ def gen_headers(rnd, cls, method):
             add(rnd.choice(["Forwarded", "forwarded"]), "for=1.2.3.4;proto=https")
     r = rnd.random()
     if r < 0.25:
-        add(rnd.choice(["X-Request-Id", "x-request-id", "X-Request-ID"]), rnd.choice(["abc-123", "7", "not a uuid"]))
+        add(rnd.choice(["X-Request-Id", "x-request-id", "X-Request-ID"]),
+            rnd.choice(["abc-123", "7", "not a uuid", "not a uuid", "r" * rnd.choice([36, 200, 255, 256, 257, 313, 1024, 4000])]))
         if rnd.random() < 0.15:
             add("X-Request-Id", "second")
     elif r < 0.33:
@@ -256,7 +257,7 @@ def gen_response(rnd, cls, client_headers, method):
         n = rnd.choice(["Set-Cookie", "set-cookie", "Location", "ETag", "Cache-Control", "X-Odd_Name", "Server", "Vary",
                         "X-Multi", "x-MULTI", "Www-Authenticate", "Content-Language", "X-Frame-Options", "Link", "Age"])
         v = rnd.choice([b"a=1; Path=/", b"b=2; HttpOnly", b"/next?x=1;y", b"W/\"1\"", b"no-store", b"", b"v\xc3\xa9", b"a, b",
-                        b"Basic realm=\"x\"", b"42", b"</style.css>; rel=preload"])
+                        b"Basic realm=\"x\"", b"42", b"</style.css>; rel=preload", b"c=" + b"z" * rnd.choice([255, 256, 4000])])
         add(n, v)
     if rnd.random() < 0.3:
         add("Date", rnd.choice(["Tue, 15 Nov 1994 08:12:31 GMT", "yesterday"]))
@@ -274,7 +275,12 @@ def gen_response(rnd, cls, client_headers, method):
     wire_body = b"" if (method == "HEAD" or nobody) else body
     if gunzipped is not None and (not wire_body):
         gunzipped = None
-    return {"status": status, "reason": hx(rnd.choice(["OK", "Fine", "", "Whatever It Is"])),
+    early = []
+    if rnd.random() < 0.10:      # informational responses ahead of the final one (Early Hints, Processing)
+        for _ in range(rnd.choice([1, 1, 2])):
+            es = rnd.choice([103, 103, 102])
+            early.append({"status": es, "headers": [[hx(b"Link"), hx(b"</s.css>; rel=preload")]] if es == 103 else []})
+    return {"status": status, "reason": hx(rnd.choice(["OK", "Fine", "", "Whatever It Is"])), "early": early,
             "headers": [[hx(n), hx(v)] for n, v in hs], "body": hx(body),
             "framing": rnd.choice(["cl", "cl", "chunked"]),
             "_wire_body": hx(wire_body), "_gunzipped": None if gunzipped is None else hx(gunzipped)}
@@ -399,7 +405,8 @@ def project(case, o, rid_count):
     p = {"client_ip": (o.get("client_ip") or "").encode(), "status": o.get("status") or 0,
          "headers": [(unhex(k), unhex(v)) for k, v in o.get("resp_headers") or [] if unhex(k) not in DROP_CLIENT],
          "body": unhex(o.get("resp_body") or ""), "hit": bool(o.get("hit")), "svc": SVC_ID.get(o.get("svc"), 0),
-         "method": b"", "target": b"", "host": b"", "theaders": [], "tbody": b"", "rid_unique": False, "start_in_window": False}
+         "method": b"", "target": b"", "host": b"", "theaders": [], "tbody": b"", "rid_unique": False, "start_in_window": False,
+         "early": [e["status"] for e in o.get("early") or []]}
     # an error after the status line (e.g. the server resets the connection after a 400 while request body
     # bytes are unread) leaves status/headers as read; a truncated body then shows as a body mismatch
     if p["hit"]:
@@ -435,12 +442,13 @@ def case_term(case, pr):
         str_lit(unhex(case["_body"])), bool_lit(case["tls"]))
     r = case["resp"]
     gz = "None" if r["_gunzipped"] is None else "(Some %s)" % str_lit(unhex(r["_gunzipped"]))
-    rs = "(mkResp %d %s %s %s %s)" % (r["status"], hdrs_lit([(unhex(n), unhex(v)) for n, v in r["headers"]]),
-                                      str_lit(unhex(r["_wire_body"])), gz, bool_lit(r["framing"] == "chunked"))
-    ob = "(mkObs %s %d %s %s %s %d %s %s %s %s %s %s %s)" % (
+    rs = "(mkResp %d %s %s %s %s %s)" % (r["status"], hdrs_lit([(unhex(n), unhex(v)) for n, v in r["headers"]]),
+                                         str_lit(unhex(r["_wire_body"])), gz, bool_lit(r["framing"] == "chunked"),
+                                         list_lit(["%d" % e["status"] for e in r.get("early") or []]))
+    ob = "(mkObs %s %d %s %s %s %d %s %s %s %s %s %s %s %s)" % (
         str_lit(pr["client_ip"]), pr["status"], hdrs_lit(pr["headers"]), str_lit(pr["body"]), bool_lit(pr["hit"]), pr["svc"],
         str_lit(pr["method"]), str_lit(pr["target"]), str_lit(pr["host"]), hdrs_lit(pr["theaders"]), str_lit(pr["tbody"]),
-        bool_lit(pr["rid_unique"]), bool_lit(pr["start_in_window"]))
+        bool_lit(pr["rid_unique"]), bool_lit(pr["start_in_window"]), list_lit(["%d" % x for x in pr["early"]]))
     return "mkCase %s %s %s %s" % (bl, rq, rs, ob)
 
 
@@ -475,10 +483,12 @@ def readable(case, obs):
          "raw_request_hex": case["raw"], "bindings": [[p, s["name"], s["strip"], s["forward"]] for p, s in bindings_for(case["_host"])],
          "target_response": {"status": case["resp"]["status"],
                              "headers": [[unhex(n).decode("latin1"), unhex(v).decode("latin1")] for n, v in case["resp"]["headers"]],
-                             "body_hex": case["resp"]["_wire_body"], "framing": case["resp"]["framing"]}}
+                             "body_hex": case["resp"]["_wire_body"], "framing": case["resp"]["framing"],
+                             "informational_before": [e["status"] for e in case["resp"].get("early") or []]}}
     if obs is not None:
         d["observed"] = {
             "hit": obs.get("hit"), "service": obs.get("svc"), "err": obs.get("err"),
+            "informational_received": [e["status"] for e in obs.get("early") or []],
             "target_request_line": unhex(obs.get("req_line") or "").decode("latin1"),
             "target_request_headers": [[unhex(k).decode("latin1"), unhex(v).decode("latin1")] for k, v, _ in obs.get("req_headers") or []],
             "target_request_body_hex": obs.get("req_body"),
@@ -580,6 +590,8 @@ def run(tier, seed):
             shape["client_request_id"] += b"x-request-id" in hn
             shape["head"] += c["method"] == "HEAD"
             shape["response_chunked"] += c["resp"]["framing"] == "chunked"
+            shape["informational_first"] = shape.get("informational_first", 0) + bool(c["resp"].get("early"))
+            shape["long_header_value"] = shape.get("long_header_value", 0) + any(len(v) > 500 for _, v in c["_headers"])
         outcomes = {}
         for c, o in zip(reqs, robs):
             key = "%s %s" % ("forwarded" if o.get("hit") else "not-forwarded", o.get("status"))
